@@ -155,3 +155,8 @@ impl<T: AtomicInt> ConcurrentUnionFind<T> {
         next
     }
 }
+
+#[cfg(kani)]
+mod verif_kani {
+    include!(concat!(env!("EGGLOG_VERIF_DIR"), "/kani/uf_conc.rs"));
+}
